@@ -28,6 +28,7 @@ def one(sd):
         return name, res
     finally:
         shutil.rmtree(d, ignore_errors=True)
+        shutil.rmtree('/verif/replays/scratch/' + os.path.basename(d), ignore_errors=True)
 
 
 with cf.ThreadPoolExecutor(JOBS) as ex:
